@@ -32,7 +32,7 @@ def run(ctx):
     E.r_queue_ops(prog, rep)
     from sa.report import run_subset
     from rules import C03
-    run_subset(C03, ctx, {"R-DEPBLOB-BITS", "R-DB-LOOKUP-ON-ADD"})     # the stored dependency list is read back as written; stored results are consulted
+    run_subset(C03, ctx, {"R-DEPBLOB-BITS", "R-DB-LOOKUP-ON-ADD", "R-SQL-LENGTHS", "R-SQL-AFFINITY", "R-DB-VERSION"})     # the stored dependency list is read back as written; stored results are consulted
     E.r_epoch_persist(prog, rep)
     E.r_state_order(prog, rep)
     E.r_parallel_vectors(prog, rep)
@@ -40,6 +40,7 @@ def run(ctx):
     from rules import C03
     C03.r_sql_columns(prog, rep)
     E.r_discovered_demanded(prog, rep)
+    E.run_all(prog, rep)        # every other engine rule: this property is anchored in the whole engine
 
 
 from rules.engine_variants import C01 as VARIANTS  # noqa: E402
